@@ -68,6 +68,7 @@ import PercevalModel.Lemmas.C12NearDiag
 import PercevalModel.Lemmas.C12Glue
 import PercevalModel.Lemmas.C12Exact
 import PercevalModel.Lemmas.C12Other
+import PercevalModel.Lemmas.C12More
 import PercevalModel.Num.GQ
 import Mathlib.LinearAlgebra.Matrix.Notation
 import Mathlib.LinearAlgebra.Matrix.Block
@@ -1261,5 +1262,188 @@ example : (∃ θ : ℝ, nullEq (bsInvC θ) Complex.I 1 = 0) ∧ (∃ φa φb : 
   constructor
   · rw [bs_alone_nullable_iff]; simp
   · rw [mzi_phase_first_nullable_iff]; simp
+
+end PM.C12
+
+
+/-! ### wave 7 (proofs only): the relaxed criteria, and `None` as mathematics at the level of a whole run
+
+* `|equation| ≤ precision` is `solve`'s acceptance test.  For the two characterised non-universal blocks it forces the
+  exact criteria of `bs_alone_nullable_iff` / `mzi_phase_first_nullable_iff` up to an explicit tolerance — the
+  tolerance the harness applies to every solved cell of such a circuit (hand-derived until now).
+* `exact_run_returns_circuit` had only one direction.  `exact_run_total_iff`: a solver makes `decompose_triangle`
+  return for every request iff it answers every pair; `first_cell_unsolvable_run_fails`: the first cell visited is
+  `(j, n) = (m−1, 0)` with the entries `U[0, m−1]`, `U[1, m−1]`, and with `ignore_identity_block` off a solver without
+  answer for them means `None`.
+* hence for `BS(theta)` alone and `catalog['mzi phase first']` there are matrices (of every size ≥ 2) that NO minimiser
+  can decompose, even with the acceptance tolerance `ε`: `bs_alone_run_returns_none`,
+  `mzi_phase_first_run_returns_none`. -/
+
+namespace PM.C12
+
+/-- `BS(theta)` alone, relaxed criterion: if SOME parameter value brings the equation of the cell `(a, b)` below `ε`
+(`solve` accepted) then `|Re(a·conj b)| ≤ ε·√(|a|² + |b|²) ≤ √2·ε·max(|a|, |b|)` (the second bound is the one
+`harness/c12.py` uses); at `ε = 0` this is the `→` of `bs_alone_nullable_iff` -/
+theorem bs_alone_relaxed_criterion (θ ε : ℝ) (a b : ℂ) (h : ‖nullEq (bsInvC θ) a b‖ ≤ ε) :
+    |(a * (starRingEnd ℂ) b).re| ≤ ε * Real.sqrt (‖a‖ ^ 2 + ‖b‖ ^ 2) ∧
+      |(a * (starRingEnd ℂ) b).re| ≤ Real.sqrt 2 * ε * max ‖a‖ ‖b‖ := by
+  have h1 := bs_relaxed' θ ε a b h
+  have hε : 0 ≤ ε := le_trans (norm_nonneg _) h
+  refine ⟨h1, le_trans h1 ?_⟩
+  have := mul_le_mul_of_nonneg_left (sqrt_sq_add_sq_le_max ‖a‖ ‖b‖ (norm_nonneg _) (norm_nonneg _)) hε
+  linarith
+
+/-- `catalog['mzi phase first']`, relaxed criterion: if SOME parameter values bring the equation of the cell `(a, b)`
+below `ε` then `|Im(a·conj b)| ≤ ε·(|a| + |b|)` (the bound `harness/c12.py` uses) -/
+theorem mzi_phase_first_relaxed_criterion (φa φb ε : ℝ) (a b : ℂ)
+    (h : ‖nullEq (mziFirstInvC φa φb) a b‖ ≤ ε) :
+    |(a * (starRingEnd ℂ) b).im| ≤ ε * (‖a‖ + ‖b‖) := mziFirst_relaxed' φa φb ε a b h
+
+/-- non-vacuity: the hypotheses are met (cells `(i, 1)` resp. `(1, 1)`, `ε = 0`) -/
+example : (∃ θ : ℝ, ‖nullEq (bsInvC θ) Complex.I 1‖ ≤ 0) ∧
+    (∃ φa φb : ℝ, ‖nullEq (mziFirstInvC φa φb) 1 1‖ ≤ 0) := by
+  constructor
+  · obtain ⟨θ, h⟩ := (bs_alone_nullable_iff Complex.I 1).2 (by simp)
+    exact ⟨θ, by rw [h]; simp⟩
+  · obtain ⟨φa, φb, h⟩ := (mzi_phase_first_nullable_iff 1 1).2 (by simp)
+    exact ⟨φa, φb, by rw [h]; simp⟩
+
+/-- the converse of `exact_run_returns_circuit`: `decompose_triangle` with the solver plugged in returns for EVERY
+flag combination, size and matrix iff the solver answers every pair of entries -/
+theorem exact_run_total_iff [CommRing R] (solver : R → R → Option (Sol R)) :
+    (∀ (cfg : Cfg R) (m : ℕ) (U : Matrix (Fin m) (Fin m) R), ∃ st, decomposeExact cfg solver U = some st) ↔
+      ∀ a b, (solver a b).isSome = true := decomposeExact_total_iff solver
+
+/-- the first cell of the elimination is `(j, n) = (m−1, 0)`: with `ignore_identity_block` off (no identity skip, no
+PERM substitution) a solver that has no answer for `(U[0, m−1], U[1, m−1])` makes the run return `None`, for every
+size `m = k + 2`, threshold predicate and `permutation` setting -/
+theorem first_cell_unsolvable_run_fails [CommRing R] (cfg : Cfg R) (hi : cfg.ignoreId = false)
+    (solver : R → R → Option (Sol R)) (k : ℕ) (U : Matrix (Fin (k + 2)) (Fin (k + 2)) R)
+    (hs : solver (U 0 (Fin.last (k + 1))) (U 1 (Fin.last (k + 1))) = none) :
+    decomposeExact cfg solver U = none := decomposeExact_none_of_first_cell' cfg hi solver k U hs
+
+/-- `BS(theta)` alone, a whole run: let the minimiser be ANY function whose accepted answers are instances of the block
+with `|equation| ≤ ε` (what `solve` guarantees, `solve_sound`).  If the last column of `U` starts with a pair violating
+the relaxed criterion, `decompose_triangle` (with `ignore_identity_block` off) returns `None` — for every size, every
+threshold and whatever the minimiser does: this `None` is mathematics -/
+theorem bs_alone_run_returns_none (cfg : Cfg ℂ) (hi : cfg.ignoreId = false) (solver : ℂ → ℂ → Option (Sol ℂ))
+    (ε : ℝ) (hsol : ∀ a b s, solver a b = some s → ∃ θ : ℝ, s.2 = bsInvC θ ∧ ‖nullEq s.2 a b‖ ≤ ε)
+    (k : ℕ) (U : Matrix (Fin (k + 2)) (Fin (k + 2)) ℂ)
+    (hU : ε * Real.sqrt (‖U 0 (Fin.last (k + 1))‖ ^ 2 + ‖U 1 (Fin.last (k + 1))‖ ^ 2) <
+      |(U 0 (Fin.last (k + 1)) * (starRingEnd ℂ) (U 1 (Fin.last (k + 1)))).re|) :
+    decomposeExact cfg solver U = none := bs_run_none' cfg hi solver ε hsol k U hU
+
+/-- the same for `catalog['mzi phase first']` with `|Im(a·conj b)| > ε·(|a| + |b|)` -/
+theorem mzi_phase_first_run_returns_none (cfg : Cfg ℂ) (hi : cfg.ignoreId = false)
+    (solver : ℂ → ℂ → Option (Sol ℂ)) (ε : ℝ)
+    (hsol : ∀ a b s, solver a b = some s → ∃ φa φb : ℝ, s.2 = mziFirstInvC φa φb ∧ ‖nullEq s.2 a b‖ ≤ ε)
+    (k : ℕ) (U : Matrix (Fin (k + 2)) (Fin (k + 2)) ℂ)
+    (hU : ε * (‖U 0 (Fin.last (k + 1))‖ + ‖U 1 (Fin.last (k + 1))‖) <
+      |(U 0 (Fin.last (k + 1)) * (starRingEnd ℂ) (U 1 (Fin.last (k + 1)))).im|) :
+    decomposeExact cfg solver U = none := mziFirst_run_none' cfg hi solver ε hsol k U hU
+
+/-- non-vacuity of `bs_alone_run_returns_none`: a solver that DOES answer (every nullable cell, with an exact root),
+`ε = 0`, and a matrix whose first cell is `(1, 1)` -/
+example : ∃ (cfg : Cfg ℂ) (solver : ℂ → ℂ → Option (Sol ℂ)) (ε : ℝ) (U : Matrix (Fin 2) (Fin 2) ℂ),
+    cfg.ignoreId = false ∧
+    (∀ a b s, solver a b = some s → ∃ θ : ℝ, s.2 = bsInvC θ ∧ ‖nullEq s.2 a b‖ ≤ ε) ∧
+    (solver Complex.I 1).isSome = true ∧
+    ε * Real.sqrt (‖U 0 (Fin.last 1)‖ ^ 2 + ‖U 1 (Fin.last 1)‖ ^ 2) <
+      |(U 0 (Fin.last 1) * (starRingEnd ℂ) (U 1 (Fin.last 1))).re| := by
+  refine ⟨⟨fun _ => false, false, false⟩, bsExactSolver, 0, !![0, 1; 0, 1], rfl, bsExactSolver_spec,
+    bsExactSolver_answers, ?_⟩
+  have : (Fin.last 1 : Fin 2) = 1 := rfl
+  simp [this]
+
+/-- non-vacuity of `mzi_phase_first_run_returns_none`: first cell `(1, i)` -/
+example : ∃ (cfg : Cfg ℂ) (solver : ℂ → ℂ → Option (Sol ℂ)) (ε : ℝ) (U : Matrix (Fin 2) (Fin 2) ℂ),
+    cfg.ignoreId = false ∧
+    (∀ a b s, solver a b = some s → ∃ φa φb : ℝ, s.2 = mziFirstInvC φa φb ∧ ‖nullEq s.2 a b‖ ≤ ε) ∧
+    (solver 1 1).isSome = true ∧
+    ε * (‖U 0 (Fin.last 1)‖ + ‖U 1 (Fin.last 1)‖) <
+      |(U 0 (Fin.last 1) * (starRingEnd ℂ) (U 1 (Fin.last 1))).im| := by
+  refine ⟨⟨fun _ => false, false, false⟩, mziFirstExactSolver, 0, !![0, 1; 0, Complex.I], rfl,
+    mziFirstExactSolver_spec, mziFirstExactSolver_answers, ?_⟩
+  have : (Fin.last 1 : Fin 2) = 1 := rfl
+  simp [this]
+
+/-- non-vacuity of `first_cell_unsolvable_run_fails`, and necessity of `ignore_identity_block = off`: the same
+solver-less request returns a circuit when the identity skip takes every cell -/
+example : decomposeExact (⟨fun _ => false, false, false⟩ : Cfg ℂ) (fun _ _ => none)
+      (1 : Matrix (Fin 2) (Fin 2) ℂ) = none ∧
+    (decomposeExact (⟨fun _ => true, true, false⟩ : Cfg ℂ) (fun _ _ => none)
+      (1 : Matrix (Fin 2) (Fin 2) ℂ)).isSome = true := by
+  refine ⟨first_cell_unsolvable_run_fails _ rfl _ 0 _ rfl, ?_⟩
+  simp [decomposeExact, cells, runF, stepF, List.range_succ]
+
+/-- the relaxed criterion of `BS(theta)` is sharp up to the factor `√2`: for EVERY cell some parameter value brings the
+equation down to `|Re(a·conj b)| / max(|a|, |b|)` (closed form: `2·arctan(Im(a·conj b)/|b|²)` resp.
+`π − 2·arctan(Im(a·conj b)/|a|²)`), while by `bs_alone_relaxed_criterion` none goes below
+`|Re(a·conj b)| / √(|a|² + |b|²)`; at `Re(a·conj b) = 0` this is the `←` of `bs_alone_nullable_iff` -/
+theorem bs_alone_least_equation_bounds (a b : ℂ) :
+    (∃ θ : ℝ, ‖nullEq (bsInvC θ) a b‖ * max ‖a‖ ‖b‖ ≤ |(a * (starRingEnd ℂ) b).re|) ∧
+    (∀ θ : ℝ, |(a * (starRingEnd ℂ) b).re| ≤ ‖nullEq (bsInvC θ) a b‖ * Real.sqrt (‖a‖ ^ 2 + ‖b‖ ^ 2)) :=
+  ⟨bs_near_root a b, fun θ => bs_relaxed' θ _ a b le_rfl⟩
+
+/-- `catalog['mzi phase first']`: the least modulus of the equation over all parameter values, exactly:
+`2·|Im(a·conj b)| / (|a − ib| + |a + ib|)` — a lower bound for every `(phi_a, phi_b)`, attained at
+`phi_b = arg(a − ib) − arg(a + ib)` for every `phi_a` -/
+theorem mzi_phase_first_least_equation (a b : ℂ) :
+    (∀ φa φb : ℝ, 2 * |(a * (starRingEnd ℂ) b).im| ≤
+      ‖nullEq (mziFirstInvC φa φb) a b‖ * (‖a - Complex.I * b‖ + ‖a + Complex.I * b‖)) ∧
+    (∃ φb : ℝ, ∀ φa : ℝ, ‖nullEq (mziFirstInvC φa φb) a b‖ * (‖a - Complex.I * b‖ + ‖a + Complex.I * b‖) =
+      2 * |(a * (starRingEnd ℂ) b).im|) :=
+  ⟨fun φa φb => mziFirst_lower φa φb a b, mziFirst_attained a b⟩
+
+/-- hence the cells `solve` can accept for `catalog['mzi phase first']` at precision `ε ≥ 0`, exactly (at `ε = 0`:
+`mzi_phase_first_nullable_iff`) -/
+theorem mzi_phase_first_eps_nullable_iff (ε : ℝ) (hε : 0 ≤ ε) (a b : ℂ) :
+    (∃ φa φb : ℝ, ‖nullEq (mziFirstInvC φa φb) a b‖ ≤ ε) ↔
+      2 * |(a * (starRingEnd ℂ) b).im| ≤ ε * (‖a - Complex.I * b‖ + ‖a + Complex.I * b‖) :=
+  mziFirst_eps_nullable_iff ε hε a b
+
+/-- non-vacuity / necessity of `0 ≤ ε`: with a negative `ε` the left side is false and the right side true at
+`a = b = 0` -/
+example : ¬ ((∃ φa φb : ℝ, ‖nullEq (mziFirstInvC φa φb) 0 0‖ ≤ (-1 : ℝ)) ↔
+    2 * |((0 : ℂ) * (starRingEnd ℂ) 0).im| ≤ (-1 : ℝ) * (‖(0 : ℂ) - Complex.I * 0‖ + ‖(0 : ℂ) + Complex.I * 0‖)) := by
+  intro h
+  obtain ⟨φa, φb, h1⟩ := h.2 (by simp)
+  have := norm_nonneg (nullEq (mziFirstInvC φa φb) 0 0)
+  linarith
+
+/-- `decompose_triangle` with the solver plugged in answers `None` EXACTLY when the loop reaches a cell `(j, n)` that
+is neither an identity skip nor a PERM substitution and for whose current entries `(u[n, j], u[n+1, j])` the solver has
+no answer (the completion of `exact_run_returns_circuit`: there is no other `return None`, and this one is taken) -/
+theorem exact_run_returns_none_iff [CommRing R] (cfg : Cfg R) (solver : R → R → Option (Sol R)) {m : ℕ}
+    (U : Matrix (Fin m) (Fin m) R) :
+    decomposeExact cfg solver U = none ↔
+      ∃ pre c post st', cells m = pre ++ c :: post ∧ runF cfg solver (initSt U []) pre = some st' ∧
+        (cfg.small (getN st'.u.toMatrix c.2 c.1) && cfg.ignoreId) = false ∧
+        (if cfg.usePerm then findK cfg st'.u.toMatrix c.2 c.1 else none) = none ∧
+        solver (getN st'.u.toMatrix c.2 c.1) (getN st'.u.toMatrix (c.2 + 1) c.1) = none := by
+  unfold decomposeExact
+  rw [runF_none_iff]
+  simp only [stepF_none_iff]
+
+/-- which TWO-mode matrices the non-universal blocks decompose (`ignore_identity_block` off, the exact solvers that
+answer every nullable cell with a root): `BS(theta)` alone exactly those with `Re(U[0,1]·conj U[1,1]) = 0`,
+`catalog['mzi phase first']` exactly those with `Im(U[0,1]·conj U[1,1]) = 0`.  (For `m ≥ 3` the later cells see entries
+already transformed by the earlier blocks: only the necessary condition on the first cell is proved,
+`bs_alone_run_returns_none` / `mzi_phase_first_run_returns_none`.) -/
+theorem non_universal_blocks_two_modes_iff (cfg : Cfg ℂ) (hi : cfg.ignoreId = false)
+    (U : Matrix (Fin 2) (Fin 2) ℂ) :
+    ((decomposeExact cfg bsExactSolver U).isSome = true ↔ (U 0 1 * (starRingEnd ℂ) (U 1 1)).re = 0) ∧
+    ((decomposeExact cfg mziFirstExactSolver U).isSome = true ↔ (U 0 1 * (starRingEnd ℂ) (U 1 1)).im = 0) := by
+  rw [decomposeExact_two cfg hi, decomposeExact_two cfg hi]
+  exact ⟨bsExactSolver_isSome_iff _ _, mziFirstExactSolver_isSome_iff _ _⟩
+
+/-- non-vacuity / necessity of `ignore_identity_block = off` in `non_universal_blocks_two_modes_iff`: with the skip on
+and a threshold that calls everything negligible the matrix `[[0,1],[0,1]]` IS processed although `Re(1·conj 1) ≠ 0` -/
+example : (decomposeExact (⟨fun _ => true, true, false⟩ : Cfg ℂ) bsExactSolver !![0, 1; 0, 1]).isSome = true ∧
+    ((!![0, 1; 0, 1] : Matrix (Fin 2) (Fin 2) ℂ) 0 1 *
+      (starRingEnd ℂ) ((!![0, 1; 0, 1] : Matrix (Fin 2) (Fin 2) ℂ) 1 1)).re ≠ 0 := by
+  constructor
+  · simp [decomposeExact, cells, runF, stepF, List.range_succ]
+  · simp
 
 end PM.C12
